@@ -499,6 +499,20 @@ def check_log_retention(rep, fx, W):
             for (b2, e, side) in edge_guards(ccv, w['bb']):
                 if isinstance(e, tuple) and e[0] == 'call' and 'ContextMode' in e[1] and side:
                     okc = True
+    # ... and the cut comes last: whatever the close itself does afterwards in the meta branch (turning the block's results into
+    # literals pops them, and a pop is logged) would be left on the log
+    growers = {fn for fn, ws in W.items() if any(w['field'][0] == 'reverse_log' and w['how'].startswith('call:grow') for w in ws)}
+    log_fns = {fn for fn in fx.fns if growers & (fx.reachable_from([fn]) | {fn})}
+    late = []
+    for w in cuts:
+        for b2 in blocks_after(ccv, w['bb']):
+            t2 = ccv.blocks[b2]['term']
+            if t2['k'] == 'call' and callee_of(t2) in log_fns:
+                late.append(short(callee_of(t2)))
+    rep.add('C02.R3', 'C02.R3:meta-evaluation-log-cut-comes-last', okc and not late,
+            'nothing that can log runs in context_close after the cut' if okc and not late else
+            'context_close calls %s after it has cut the log back: with recording on the entries those calls log stay behind although the block '
+            'is gone (`#( 2 3 + #)` compiled with recording leaves a PushData step)' % sorted(set(late)), cc.name, cc.j['span'])
     rep.add('C02.R3', 'C02.R3:meta-evaluation-leaves-no-log-entries', okc,
             'context_close cuts the log back to the mark of the meta context' if okc else
             'what a meta block logs while it runs at build time stays on the reverse log: with recording on, compile(`#( 1 2 + #) 4`), '
